@@ -34,23 +34,81 @@ func runC09(c *Ctx) {
 	}
 	r.Floor("R09.1", 1, "buildTreeRecursive")
 
+	// the recursive expand function: the function of internal/expand with a depth parameter that
+	// applies the visited gate and lies on a cycle of static calls (it may recurse through a
+	// helper the loop over the children was extracted into)
+	callees := func(fn *ssa.Function) []*ssa.Function {
+		var out []*ssa.Function
+		for _, g := range core.Closures(fn) {
+			core.Instrs(g, func(_ *ssa.BasicBlock, _ int, ins ssa.Instruction) {
+				if ci, ok := ins.(ssa.CallInstruction); ok {
+					if sc := ci.Common().StaticCallee(); sc != nil && sc.Blocks != nil && core.FuncPkg(sc) != nil && core.FuncPkg(sc) == core.FuncPkg(fn) {
+						out = append(out, sc)
+					}
+				}
+			})
+		}
+		return out
+	}
 	var rec *ssa.Function
+	cycle := map[*ssa.Function]bool{} // the functions through which rec reaches itself
 	for _, fn := range p.KetoFuncs("internal/expand") {
-		if fn.Parent() != nil {
+		if fn.Parent() != nil || depthParam(fn) == nil {
 			continue
 		}
-		self := false
+		hasGate := false
 		core.Instrs(fn, func(_ *ssa.BasicBlock, _ int, ins ssa.Instruction) {
-			if ci, ok := ins.(*ssa.Call); ok && ci.Common().StaticCallee() == fn {
-				self = true
+			if ci, ok := ins.(*ssa.Call); ok && core.IsCallTo(ci, "CheckAndAddVisited") {
+				hasGate = true
 			}
 		})
-		if self && depthParam(fn) != nil {
+		// functions reachable from fn that reach fn
+		reach := map[*ssa.Function]bool{}
+		var dfs func(f *ssa.Function, depth int)
+		dfs = func(f *ssa.Function, depth int) {
+			if reach[f] || depth > 4 {
+				return
+			}
+			reach[f] = true
+			for _, c2 := range callees(f) {
+				dfs(c2, depth+1)
+			}
+		}
+		for _, c2 := range callees(fn) {
+			dfs(c2, 0)
+		}
+		if !reach[fn] {
+			continue
+		}
+		if rec == nil || hasGate {
 			rec = fn
+			cycle = map[*ssa.Function]bool{}
+			for f := range reach {
+				back := map[*ssa.Function]bool{}
+				var d2 func(g *ssa.Function, depth int) bool
+				d2 = func(g *ssa.Function, depth int) bool {
+					if g == fn {
+						return true
+					}
+					if back[g] || depth > 4 {
+						return false
+					}
+					back[g] = true
+					for _, c2 := range callees(g) {
+						if d2(c2, depth+1) {
+							return true
+						}
+					}
+					return false
+				}
+				if f == fn || d2(f, 0) {
+					cycle[f] = true
+				}
+			}
 		}
 	}
 	if rec == nil {
-		r.Undecide("R09.2", "", "anchor recursive expand function", "", "no self-recursive function in internal/expand")
+		r.Undecide("R09.2", "", "anchor recursive expand function", "", "no recursive function with a depth parameter in internal/expand")
 		return
 	}
 	name := core.FuncName(rec)
@@ -69,10 +127,40 @@ func runC09(c *Ctx) {
 			gate = ci
 		case ci.Common().IsInvoke() && ci.Common().Method.Name() == "GetRelationTuples":
 			listing = ci
-		case ci.Common().StaticCallee() == rec:
+		case ci.Common().StaticCallee() != nil && cycle[ci.Common().StaticCallee()]:
 			recCalls = append(recCalls, ci)
 		}
 	})
+	// the helpers on the cycle hand their own context on
+	var helperBad []string
+	ctxArgOf := func(ci *ssa.Call) ssa.Value {
+		for _, a := range ci.Common().Args {
+			if core.IsNamed(a.Type(), "context", "Context") {
+				return a
+			}
+		}
+		return nil
+	}
+	for h := range cycle {
+		if h == rec {
+			continue
+		}
+		var hctx ssa.Value
+		for _, par := range h.Params {
+			if core.IsNamed(par.Type(), "context", "Context") {
+				hctx = par
+			}
+		}
+		for _, g := range core.Closures(h) {
+			core.Instrs(g, func(_ *ssa.BasicBlock, _ int, ins ssa.Instruction) {
+				if ci, ok := ins.(*ssa.Call); ok && ci.Common().StaticCallee() != nil && cycle[ci.Common().StaticCallee()] {
+					if a := ctxArgOf(ci); a == nil || hctx == nil || core.ValueOrigin(a) != hctx {
+						helperBad = append(helperBad, core.FuncName(h)+" does not hand the context it was given to the recursive call at "+p.Pos(ci.Pos()))
+					}
+				}
+			})
+		}
+	}
 	if gate == nil || listing == nil || len(recCalls) == 0 {
 		r.Undecide("R09.2", name, "visited gate", p.Pos(rec.Pos()), "cannot find the visited gate, the listing call or the recursive call")
 		return
@@ -118,8 +206,9 @@ func runC09(c *Ctx) {
 	if !okDom {
 		bad = append(bad, "the listing of the subject set is not confined to the not-yet-visited branch of the gate: a subject set is expanded more than once (and cyclic data does not terminate)")
 	}
+	bad = append(bad, helperBad...)
 	for _, rc := range recCalls {
-		if core.ValueOrigin(rc.Common().Args[1]) != gateCtx {
+		if a := ctxArgOf(rc); a == nil || core.ValueOrigin(a) != gateCtx {
 			bad = append(bad, "a recursive call is not given the context returned by the gate: the visited set is not shared along the recursion")
 		}
 	}
@@ -141,8 +230,56 @@ func runC09(c *Ctx) {
 			}
 		}
 	}
+	// the values a parameter of an unexported function of the package stands for: the arguments
+	// at its (static, live) call sites - a helper sees the listing / the subject through them
+	kg := p.KG()
+	live, _ := kg.Live()
+	var argsOf func(par *ssa.Parameter, depth int) ([]ssa.Value, bool)
+	argsOf = func(par *ssa.Parameter, depth int) ([]ssa.Value, bool) {
+		fn := par.Parent()
+		if fn == rec || depth > 3 || core.FuncPkg(fn) != core.FuncPkg(rec) || (fn.Object() != nil && fn.Object().Exported()) {
+			return nil, false
+		}
+		idx := -1
+		for i, q := range fn.Params {
+			if q == par {
+				idx = i
+			}
+		}
+		var out []ssa.Value
+		for _, e := range kg.In[fn] {
+			if !live[e.Caller] {
+				continue
+			}
+			ci, ok := e.Site.(ssa.CallInstruction)
+			if !ok || e.Kind != "static" || idx < 0 || idx >= len(ci.Common().Args) {
+				return nil, false
+			}
+			out = append(out, ci.Common().Args[idx])
+		}
+		return out, len(out) > 0
+	}
+	var isListing func(v ssa.Value, depth int) bool
+	isListing = func(v ssa.Value, depth int) bool {
+		if sliceRoot(v) == ssa.Value(listing) || core.ValueOrigin(v) == listRes {
+			return true
+		}
+		if par, ok := core.ValueOrigin(v).(*ssa.Parameter); ok {
+			args, ok := argsOf(par, depth)
+			if !ok {
+				return false
+			}
+			for _, a := range args {
+				if !isListing(a, depth+1) {
+					return false
+				}
+			}
+			return true
+		}
+		return false
+	}
 	fromListing := func(v ssa.Value) bool {
-		// v is r.Subject for r := range listRes
+		// v is r.Subject for r := range <the listing>
 		u, ok := core.ValueOrigin(v).(*ssa.UnOp)
 		if !ok || u.Op != token.MUL {
 			return false
@@ -162,44 +299,98 @@ func runC09(c *Ctx) {
 		if _, isConst := ia.Index.(*ssa.Const); isConst {
 			return false // a fixed element of the listing, not the tuple of this iteration
 		}
-		root := sliceRoot(ia.X)
-		return root == ssa.Value(listing) || core.ValueOrigin(ia.X) == listRes
+		return isListing(ia.X, 0)
 	}
-	okRec := true
-	for _, rc := range recCalls {
-		if !fromListing(rc.Common().Args[2]) {
-			okRec = false
+	// a subject that may label a node or be expanded: the subject being expanded, or the subject
+	// of a listed tuple - also when it reaches the place through a helper's parameter
+	var subjectOK func(v ssa.Value, depth int) bool
+	subjectOK = func(v ssa.Value, depth int) bool {
+		o := core.ValueOrigin(core.Unwrap(v))
+		if o == ssa.Value(subjPar) || fromListing(v) {
+			return true
 		}
-	}
-	r.Check(okRec, "R09.3", name, "recursive call subject", p.Pos(recCalls[0].Pos()),
-		"each recursive expansion is for the subject of a tuple of this node's listing", "a recursive expansion is made for a subject that does not come from this node's listing: the tree gets edges that are not stored relationships")
-	// Tree literals: Subject field store
-	nLit, okLit := 0, true
-	core.Instrs(rec, func(_ *ssa.BasicBlock, _ int, ins ssa.Instruction) {
-		st, ok := ins.(*ssa.Store)
-		if !ok {
-			return
+		// MakeInterface of the type-asserted parameter is the parameter itself
+		if ta, ok := o.(*ssa.TypeAssert); ok && core.ValueOrigin(ta.X) == ssa.Value(subjPar) {
+			return true
 		}
-		fa, ok := st.Addr.(*ssa.FieldAddr)
-		if !ok || fieldVarOf(fa) == nil || fieldVarOf(fa).Name() != "Subject" || !core.IsNamed(fa.X.Type(), relPkg, "Tree") {
-			return
-		}
-		nLit++
-		o := core.ValueOrigin(core.Unwrap(st.Val))
-		if o != ssa.Value(subjPar) && !fromListing(st.Val) {
-			// MakeInterface of the type-asserted parameter is the parameter itself
-			if ta, ok := o.(*ssa.TypeAssert); ok && core.ValueOrigin(ta.X) == ssa.Value(subjPar) {
-				return
+		if ex, ok := o.(*ssa.Extract); ok {
+			if ta, ok := ex.Tuple.(*ssa.TypeAssert); ok && core.ValueOrigin(ta.X) == ssa.Value(subjPar) {
+				return true
 			}
-			if ex, ok := o.(*ssa.Extract); ok {
-				if ta, ok := ex.Tuple.(*ssa.TypeAssert); ok && core.ValueOrigin(ta.X) == ssa.Value(subjPar) {
-					return
+		}
+		if par, ok := o.(*ssa.Parameter); ok {
+			args, ok := argsOf(par, depth)
+			if !ok {
+				return false
+			}
+			for _, a := range args {
+				if !subjectOK(a, depth+1) {
+					return false
 				}
 			}
-			okLit = false
+			return true
 		}
-	})
-	r.Check(okLit && nLit >= 2, "R09.3", name, "Tree.Subject of every node built", p.Pos(rec.Pos()),
+		return false
+	}
+	subjArg := func(ci *ssa.Call) ssa.Value {
+		for _, a := range ci.Common().Args {
+			if core.IsNamed(a.Type(), relPkg, "Subject") {
+				return a
+			}
+		}
+		return nil
+	}
+	okRec := true
+	nRecCalls := 0
+	for f := range cycle {
+		for _, g := range core.Closures(f) {
+			core.Instrs(g, func(_ *ssa.BasicBlock, _ int, ins ssa.Instruction) {
+				ci, ok := ins.(*ssa.Call)
+				if !ok || ci.Common().StaticCallee() != rec {
+					return
+				}
+				nRecCalls++
+				if a := subjArg(ci); a == nil || !fromListing(a) {
+					okRec = false
+				}
+			})
+		}
+	}
+	r.Check(okRec && nRecCalls > 0, "R09.3", name, "recursive call subject", p.Pos(recCalls[0].Pos()),
+		"each recursive expansion is for the subject of a tuple of this node's listing", "a recursive expansion is made for a subject that does not come from this node's listing: the tree gets edges that are not stored relationships")
+	// Tree literals: Subject field store, in the recursive function and in the helpers it uses
+	nLit, okLit := 0, true
+	var builders []*ssa.Function
+	for _, fn := range p.KetoFuncs("internal/expand") {
+		if fn == rec || cycle[core.Outermost(fn)] {
+			builders = append(builders, fn)
+			continue
+		}
+		// a node constructor called from the cycle
+		for _, e := range kg.In[core.Outermost(fn)] {
+			if cycle[core.Outermost(e.Caller)] && e.Kind == "static" && fn.Parent() == nil && !(fn.Object() != nil && fn.Object().Exported()) {
+				builders = append(builders, fn)
+				break
+			}
+		}
+	}
+	for _, bf := range builders {
+		core.Instrs(bf, func(_ *ssa.BasicBlock, _ int, ins ssa.Instruction) {
+			st, ok := ins.(*ssa.Store)
+			if !ok {
+				return
+			}
+			fa, ok := st.Addr.(*ssa.FieldAddr)
+			if !ok || fieldVarOf(fa) == nil || fieldVarOf(fa).Name() != "Subject" || !core.IsNamed(fa.X.Type(), relPkg, "Tree") {
+				return
+			}
+			nLit++
+			if !subjectOK(st.Val, 0) {
+				okLit = false
+			}
+		})
+	}
+	r.Check(okLit && nLit >= 1, "R09.3", name, "Tree.Subject of every node built", p.Pos(rec.Pos()),
 		fmt.Sprintf("all %d tree nodes built carry the expanded subject or the subject of a listed tuple", nLit), "a tree node is built with a subject that is neither the expanded subject nor a listed tuple's subject")
 
 	// R09.4 paging, R09.5 clamp
